@@ -108,9 +108,21 @@ def gen_scenario(seed: int, light: bool = False) -> Dict[str, Any]:
         if t == "line":
             d = np.array(direction())
             a, b = rs.uniform(0.1, 0.5), (rs.pick([0.0, rs.uniform(0.0, 0.03)]) if near_end else rs.uniform(0.1, 0.5))
+            if rs.chance(0.45):
+                # the line starts at the vertex itself, and the clamp is built from the vertex's own
+                # position array (as the library's examples do); usually it is aimed at the place the
+                # vertex was jittered away from and stops short of it, so that the upper bound is active
+                ideal = np.array([float(x) for x in nme.split("_")])
+                gap = float(np.linalg.norm(ideal - p))
+                if gap > 0.02 and rs.chance(0.7):
+                    d = (ideal - p) / gap
+                    a, b = 0.0, rs.uniform(0.3, 0.7) * gap
+                else:
+                    a, b = 0.0, rs.uniform(0.2, 0.6)
+                spec["from_vertex"] = True
             spec["p1"] = [round(x, 6) for x in (p - a * d)]
             spec["p2"] = [round(x, 6) for x in (p + b * d)]
-            if rs.chance(0.5) and not near_end:
+            if rs.chance(0.5) and not near_end and not spec.get("from_vertex"):
                 L = float(np.linalg.norm(np.array(spec["p2"]) - np.array(spec["p1"])))
                 spec["bounds"] = [round(rs.uniform(0, 0.3) * L, 6), round(rs.uniform(0.7, 1.0) * L, 6)]
         elif t == "plane":
@@ -191,6 +203,7 @@ def gen_scenario(seed: int, light: bool = False) -> Dict[str, Any]:
                 lk["follower_at"] = [float(x) for x in img]
         links.append(lk)
     sc["links"] = links
+    sc["repeat"] = rs.chance(0.4)  # optimize() is called a second time on the same optimizer
     sc["method"] = rs.pick(METHODS if not light else ["SLSQP", "L-BFGS-B"])
     sc["iterations"] = rs.randint(1, 3 if not light else 2)
     # fault plan: per minimiser call
@@ -238,7 +251,7 @@ def surface_frame(spec, p):
     return n, u, v
 
 
-def make_clamp(spec: Dict[str, Any], p: np.ndarray):
+def make_clamp(spec: Dict[str, Any], p: np.ndarray, live: Optional[np.ndarray] = None):
     import classy_blocks as cb
 
     t = spec["type"]
@@ -246,6 +259,8 @@ def make_clamp(spec: Dict[str, Any], p: np.ndarray):
         return cb.FreeClamp(p)
     if t == "line":
         b = tuple(spec["bounds"]) if "bounds" in spec else None
+        if spec.get("from_vertex") and live is not None:
+            return cb.LineClamp(live, live, live + (np.array(spec["p2"]) - np.array(spec["p1"])), b)
         return cb.LineClamp(p, spec["p1"], spec["p2"], b)
     if t == "plane":
         return cb.PlaneClamp(p, p, spec["normal"])
@@ -511,7 +526,8 @@ def run_scenario(sc: Dict[str, Any], clock_plan: Optional[str] = None, max_evals
             for spec in sc["clamps"]:
                 i = index_of(spec["node"])
                 try:
-                    c = make_clamp(spec, pos[i].copy())
+                    live = mesh.vertices[i].position if mesh is not None else None
+                    c = make_clamp(spec, pos[i].copy(), live)
                 except Exception as e:
                     bad("clamp-construction", f"{spec['type']} clamp at a point on its manifold raised {type(e).__name__}: {e}")
                     continue
@@ -640,6 +656,13 @@ def run_scenario(sc: Dict[str, Any], clock_plan: Optional[str] = None, max_evals
                     opt.auto_optimize(max_iterations=sc["iterations"], tolerance=1e-9, method=sc["method"])
                 else:
                     opt.optimize(max_iterations=sc["iterations"], tolerance=1e-9, method=sc["method"])
+                    if sc.get("repeat"):
+                        stats["repeated_optimize"] = 1
+                        q_mid = float(grid.quality)
+                        opt.optimize(max_iterations=sc["iterations"], tolerance=1e-9, method=sc["method"])
+                        q_end = float(grid.quality)
+                        if q_end > q_mid * (1 + 1e-6) + 1e-9:
+                            bad("second-optimize-worsened", f"a second optimize() on the same optimizer took the summed quality from {q_mid:.10g} to {q_end:.10g}")
             except Exception as e:
                 bad("optimize-raised", f"optimize() raised {type(e).__name__}: {str(e)[:200]}")
                 return {"violations": viols, "stats": stats, "log": digest(world.log), "final": None, "sim": sim}
